@@ -394,11 +394,21 @@ def _same_reactant(prog):
 
 
 def _heavy_skip(tier, prog, mat, pkg, basis):
-    """Thorough-tier pruning (measured): chains of >= 3 reactions on a weight basis / mass views / other packages cost
-    minutes per VC even with pinned reactants; they are kept on the molar basis for s:P3, s:Q3 and sparse data."""
-    if tier != 'thorough' or _n_rxns(prog) < 3: return False
-    if basis == 'wt': return not (prog['kind'] == 'parallel' and (mat, pkg) == ('s', 'P3'))
-    return (mat, pkg) not in (('s', 'P3'), ('s', 'Q3'), ('sv', 'P3'))
+    """Thorough-tier pruning (measured; the quick tier lists its configurations explicitly): with the feasibility
+    disjunctions of __call__ the VCs of long chains cost minutes to tens of minutes each even with pinned reactants
+    (series4 on a stream: 22 min), while C05/kernel discharges the same chains as exact algebra in < 1 s.  Kept:
+    4 reactions only in parallel on s:P3 / sparse data (mol); 3 reactions on the molar basis for s:P3, s:Q3 and sparse
+    data (+ parallel on s:P3 by weight); two reactions with the same reactant on the reaction's own package."""
+    if tier != 'thorough': return False
+    n = _n_rxns(prog)
+    if n >= 4:
+        return not (prog['kind'] == 'parallel' and basis == 'mol' and (mat, pkg) in (('s', 'P3'), ('sv', 'P3')))
+    if n == 3:
+        if basis == 'wt': return not (prog['kind'] == 'parallel' and (mat, pkg) == ('s', 'P3'))
+        return (mat, pkg) not in (('s', 'P3'), ('s', 'Q3'), ('sv', 'P3'))
+    if n == 2 and _same_reactant(prog):
+        return (mat, pkg, basis) not in (('s', 'P3', 'mol'), ('s', 'P3', 'wt'), ('sv', 'P3', 'mol'), ('nd', 'P3', 'mol'))
+    return False
 
 
 def _n_rxns(prog):
@@ -583,8 +593,12 @@ def force_configs(tier):
                    ('single2[Water>Ethanol]', 's', 'wt'), ('single3[Ethanol]', 's', 'mol'), ('parallel[a>b|b>c]', 's', 'mol'),
                    ('parallel[a>b|b>c]', 'sv', 'mol')]
         else:
+            # |e| terms of the negligibility test make chains expensive here (measured 5-12 min per configuration):
+            # single reactions on every material, two distinct-reactant reactions on streams and sparse data, parallel3
             sel = [(pn, m, b) for pn in progs for m, b in (('s', 'mol'), ('sv', 'mol'), ('s', 'wt'), ('nd', 'mol'))
-                   if not _heavy_skip(tier, progs[pn], m, 'P3', b)]
+                   if _n_rxns(progs[pn]) == 1
+                   or (_n_rxns(progs[pn]) == 2 and not _same_reactant(progs[pn]) and (m, b) in (('s', 'mol'), ('sv', 'mol')))
+                   or (pn == 'parallel3' and (m, b) == ('s', 'mol'))]
         for pname, mat, basis in sel:
             prog = progs[pname]
             unit = _unit(tier, prog, symbolic_ok=(pname.startswith('single2') or (not tagged and (pname, mat) == ('single3[Water]', 's'))),
@@ -656,7 +670,8 @@ def basis_configs(tier):
                             continue
                         if tier == 'quick' and how == 'setter' and direction == 'wt->mol':
                             continue
-                        if tier == 'thorough' and _n_rxns(prog) >= 3 and (pkg != 'P3' or prog['kind'] == 'series' or _n_rxns(prog) > 3):
+                        if tier == 'thorough' and (_n_rxns(prog) >= 3 or _same_reactant(prog)) and (
+                                pkg != 'P3' or prog['kind'] != 'parallel' or _n_rxns(prog) > 3):
                             continue
                         unit = _unit(tier, prog, symbolic_ok=pname.startswith('single2'), light=False)
                         out.append({'name': f'{"tagged" if tagged else "plain"};{pname};{how};{direction};{pkg}' + (';unit' if unit else ''),
